@@ -1,26 +1,34 @@
 import OrsoVerif.Model.ProfileEst
 import OrsoVerif.Generated.TableProfExpr
 /-!
-# C14 — table-level sums: `TableProfile.__add__` (`orso/profiler/profiler.py:245-257`)
+# C14 — table-level sums: `TableProfile.__add__` (`orso/profiler/profiler.py`)
 
 ```
 def __add__(self, right_profile):
     new_profile = TableProfile()
+    left_rows = self._columns[0].count if self._columns else 0
+    right_rows = right_profile._columns[0].count if right_profile._columns else 0
     for column_name in self._column_names:                 # the LEFT table's names
         left_column = self.column(column_name)             # first column of that name
         right_column = right_profile.column(column_name)   # None when the right table lacks it
         if not right_column:
             right_column = ColumnProfile(column_name, left_column.type, <count>, <missing>)
         new_profile.add_column(left_column + right_column, column_name)
+    for column_name in right_profile._column_names:        # then the columns only the RIGHT table has
+        if column_name not in self._column_names:
+            right_column = right_profile.column(column_name)
+            left_column = ColumnProfile(column_name, right_column.type, <count>, <missing>)
+            new_profile.add_column(left_column + right_column, column_name)
     return new_profile
 ```
 
-The placeholder's `count` / `missing` and the order of the column sum are regenerated from the source on every run
-(`Gen.TableProf.placeholderCount / placeholderMissing / sumLeftFirst`); a placeholder has no bounds and no histogram.
-A column only the right table has is not carried into the sum (that is what the loop says; C14 judges the columns a sum has).
+The stand-ins' `count` / `missing` (over the present column's `count` / `missing` and the two tables' row counts), the order of
+the two column sums and whether the second loop exists are regenerated from the source on every run
+(`Gen.TableProf.*`); a stand-in has no bounds and no histogram.
 -/
 namespace Distogram
-open Gen.TableProf (placeholderCount placeholderMissing sumLeftFirst)
+open Gen.TableProf (placeholderCount placeholderMissing leftPlaceholderCount leftPlaceholderMissing sumLeftFirst keepsRightOnly
+  rightOnlyLeftFirst)
 
 variable {K : Type} [Add K] [Sub K] [Mul K] [Div K] [LT K] [LE K]
   [DecidableLT K] [DecidableLE K] [OfNat K 0] [OfNat K 1] [OfNat K 2]
@@ -28,6 +36,9 @@ variable {K : Type} [Add K] [Sub K] [Mul K] [Div K] [LT K] [LE K]
 /-- A `TableProfile`: `_column_names` zipped with `_columns`. -/
 structure TProf (K : Type) where
   cols : List (String × EProf K)
+
+/-- `_column_names` -/
+def TProf.names (t : TProf K) : List String := t.cols.map (·.1)
 
 /-- `TableProfile.column(name)`: the first column of that name, `None` without one. -/
 def TProf.column (t : TProf K) (n : String) : Option (EProf K) :=
@@ -41,12 +52,17 @@ def TProf.rows (t : TProf K) : K :=
   | [] => 0
   | c :: _ => c.2.count
 
-/-- The stand-in for a column the right table lacks, as the source builds it now. -/
-def placeholder (l : EProf K) (rr : K) : EProf K :=
-  { count := placeholderCount l.count l.missing rr, missing := placeholderMissing l.count l.missing rr,
+/-- The stand-in for a column the RIGHT table lacks, as the source builds it now (`l` = the left table's column). -/
+def placeholder (l : EProf K) (lr rr : K) : EProf K :=
+  { count := placeholderCount l.count l.missing lr rr, missing := placeholderMissing l.count l.missing lr rr,
     minimum := none, maximum := none, hist := [], cache := none }
 
-/-- The body of the loop, for the names `ns` of the left table in order; `add` is the column sum. -/
+/-- The stand-in for a column the LEFT table lacks (`r` = the right table's column). -/
+def placeholderL (r : EProf K) (lr rr : K) : EProf K :=
+  { count := leftPlaceholderCount r.count r.missing lr rr, missing := leftPlaceholderMissing r.count r.missing lr rr,
+    minimum := none, maximum := none, hist := [], cache := none }
+
+/-- The body of the first loop, for the names `ns` of the left table in order; `add` is the column sum. -/
 def addColumns (add : EProf K → EProf K → Except String (EProf K)) (a b : TProf K) :
     List String → Except String (List (String × EProf K))
   | [] => .ok []
@@ -54,7 +70,7 @@ def addColumns (add : EProf K → EProf K → Except String (EProf K)) (a b : TP
     match a.column n with
     | none => .error "AttributeError"
     | some l =>
-      let r := (b.column n).getD (placeholder l b.rows)
+      let r := (b.column n).getD (placeholder l a.rows b.rows)
       match (if sumLeftFirst then add l r else add r l) with
       | .error e => .error e
       | .ok s =>
@@ -62,11 +78,33 @@ def addColumns (add : EProf K → EProf K → Except String (EProf K)) (a b : TP
         | .error e => .error e
         | .ok t => .ok ((n, s) :: t)
 
-/-- `a + b` on table profiles with the column sum as a parameter. -/
+/-- The body of the second loop, for the names `ns` of the right table in order: a name the left table has is skipped. -/
+def addRightOnly (add : EProf K → EProf K → Except String (EProf K)) (a b : TProf K) :
+    List String → Except String (List (String × EProf K))
+  | [] => .ok []
+  | n :: rest =>
+    if a.names.contains n then addRightOnly add a b rest
+    else
+      match b.column n with
+      | none => .error "AttributeError"
+      | some r =>
+        let l := placeholderL r a.rows b.rows
+        match (if rightOnlyLeftFirst then add l r else add r l) with
+        | .error e => .error e
+        | .ok s =>
+          match addRightOnly add a b rest with
+          | .error e => .error e
+          | .ok t => .ok ((n, s) :: t)
+
+/-- `a + b` on table profiles with the column sum as a parameter: the left table's columns, then (when the source has the
+second loop) the columns only the right table has. -/
 def TProf.addWith (add : EProf K → EProf K → Except String (EProf K)) (a b : TProf K) : Except String (TProf K) :=
-  match addColumns add a b (a.cols.map (·.1)) with
+  match addColumns add a b a.names with
   | .error e => .error e
-  | .ok cs => .ok ⟨cs⟩
+  | .ok cs =>
+    match (if keepsRightOnly then addRightOnly add a b b.names else .ok []) with
+    | .error e => .error e
+    | .ok ds => .ok ⟨cs ++ ds⟩
 
 /-- `TableProfile.__add__` over the faithful histogram merge (executable; compared on every run). -/
 def TProf.add (a b : TProf K) : Except String (TProf K) := TProf.addWith EProf.add a b
